@@ -2,7 +2,8 @@
    ExtrOcamlBasic only: bool/option/list/prod/unit/sumbool map to OCaml's; Z,
    positive, nat stay the extracted Coq datatypes.  No Extract Constant. *)
 From Coq Require Import Extraction ExtrOcamlBasic ZArith List.
-Require Import CV.Transp1d.
+Require Import CV.Transp1d CV.Transp1dCert.
 Extraction Language OCaml.
 Extraction "model_transp1d.ml"
-  Transp1d.balance_demand Transp1d.solve Transp1d.assign Transp1d.assign_unfixed.
+  Transp1d.balance_demand Transp1d.solve Transp1d.assign Transp1d.assign_unfixed
+  Transp1dCert.check_plan Transp1dCert.solve_checked Transp1dCert.plan_cost.
